@@ -34,7 +34,7 @@ LEVEL_TEXT = ("Generated operation histories (Hypothesis, seeded, sharded; "
               "multi-user channel object and to an independent model; every "
               "view read and every corrupt_data output is compared with the "
               "model.  Absence of violations is not proven.")
-LEVEL_NOTE = ("histories of <= 25 (quick) / 45 (thorough) ops, K <= 4 (5), "
+LEVEL_NOTE = ("histories of <= 41 (quick) / 71 (thorough) ops, K <= 4 (5), "
               "<= 4 (6) antennas, <= 2 external sources; float64, views "
               "compared to 1e-12 relative, channel outputs to 1e-11 of the "
               "absolute-value bound")
